@@ -155,22 +155,6 @@ fn main() {
 	if let Some(path) = ctx.replay.clone() {
 		replay(ctx, &path);
 	}
-	if let Ok(only) = std::env::var("C06_DEV_ONLY") {
-		// DEV
-		let t = ctx.elapsed_s();
-		let (s, b) = match only.as_str() {
-			"confuse" => confuse::run(ctx),
-			"env" => env::run(ctx),
-			"long" => long::run(ctx),
-			_ => vcore::machinery_fail("C06_DEV_ONLY"),
-		};
-		println!("{only}: {} evaluations, {} distinct, {:.1}s", s.evaluations, s.distinct.len(), ctx.elapsed_s() - t);
-		for (k, v) in &s.outcomes {
-			println!("  {k}: {v}");
-		}
-		println!("{}", serde_json::to_string(&b).unwrap().chars().take(3000).collect::<String>());
-		ctx.finish(json!({"evaluations": s.evaluations, "distinct_nontrivial": s.distinct.len(), "rule": "dev", "samples": s.samples, "exhaustive": false}), &[]);
-	}
 	let t0 = ctx.elapsed_s();
 	let (d, d_bounds) = desc::run(ctx);
 	let t1 = ctx.elapsed_s();
